@@ -21,6 +21,11 @@ def ex_bprc(repo):
     return [a, b]
 
 
+def ex_ups(repo):
+    pe = Source(repo, PEERS)
+    return common.status_code(repo) + common.peer_state_types(repo) + [pe.method(r'^impl Peers \{', 'update_prove_state', wrap='impl Peers')]
+
+
 def obligations():
     c12 = {o.ob_id: o for o in C12.obligations()}
     c10 = {o.ob_id: o for o in C10.obligations()}
@@ -34,4 +39,8 @@ def obligations():
                  'last-N in 1..3, <=3 remembered headers, arbitrary 64-bit numbers / difficulties; sample_blocks replaced by its contract', timeout=1200,
                  mem_gb=10, min_covers=2, weight=3, cuts=['sampling::sample_blocks -> contract stub (decided in unit sampling)', 'Storage -> model']),
         o44,
+        KModelOb('O4.5-filter-cache-dropped', 'ups', 'update_prove_state_clears_cache', 'Peers::update_prove_state (real text, over the real PeerState text): a prove state that carries reorg '
+                 'headers drops the peer\'s cached latest block filter hashes (they belong to the abandoned branch and would make the new chain\'s hashes be ignored); '
+                 'without reorg headers the cache is kept; other peers untouched', ex_ups, 'arbitrary peer state, <=2 reorg headers, 2 peers', timeout=1200, mem_gb=10,
+                 min_covers=2, weight=3, cuts=['LatestBlockFilterHashes -> counter + cleared flag', 'DashMap -> array']),
     ]
